@@ -111,9 +111,10 @@ def client_hellos(tls, D):
     yield "early-data-nonempty", rebuild(exts + [(E.EARLY_DATA, b"\x00\x00\x00\x01")])
 
 
-def server_cases(ctx, tls, D, S):
+def server_cases(ctx, tls, D, S, only=None):
+    """`only` = (configuration name, ClientHello bytes): re-feed one recorded hello"""
     import datetime
-    hellos = list(client_hellos(tls, D))
+    hellos = list(client_hellos(tls, D)) if only is None else [("replayed", only[1])]
 
     def fetch(label, suite=tls.CipherSuite.AES_256_GCM_SHA384, secret=48):
         now = tls.utcnow()
@@ -130,6 +131,8 @@ def server_cases(ctx, tls, D, S):
         ("ed25519-cert", lambda: D.server(ident=S.ident("ed25519"))),
     ]
     for cname, mk in configs:
+        if only is not None and cname != only[0]:
+            continue
         for name, data in hellos:
             s = mk()
             exc, _ = D.feed(s, data)
@@ -420,3 +423,38 @@ def main(tier):
                        "key-type matrix, CertificateRequest, NewSessionTicket) on real tls.Context objects in the state "
                        "that expects them, with a key-holding peer; plus PRNG mutation fuzz of genuine messages")
     return ctx.finish()
+
+
+def owns(d):
+    return d.get("signature", {}).get("oracle") == "tls-raise"
+
+
+def replay_witness(d, path):
+    """re-execute a recorded TLS witness on the current tree (after tree.activate()): a recorded
+    ClientHello is fed again to a fresh server of the same configuration; client-side cases need
+    fresh keys, so their family is regenerated (same PRNG stream) and the same case is looked up"""
+    import os
+    import re
+    from aioquic import tls
+    from harness import tlsdrive as D, tlsscen as S
+    D.tap_extract()
+    m = re.search(r"-(\d+)-\d+\.json$", os.path.basename(path))
+    if m:
+        os.environ["VERIF_SEED"] = m.group(1)
+    case = d.get("replay", {}).get("case", "")
+    ctx = core.Ctx("replay", "quick")
+    sm = re.match(r"^server\[([\w-]+)\] ClientHello ", case)
+    if sm:
+        server_cases(ctx, tls, D, S, only=(sm.group(1), bytes.fromhex(d["replay"]["message"])))
+        return [w["what"] for w in ctx.witnesses]
+    idx = re.search(r"#(\d+)$", case)
+    if case.startswith("fuzz "):
+        fuzz(ctx, tls, D, S, rng.make("c05-tls"), int(idx.group(1)) + 1)
+    elif case.startswith("mutated "):
+        cert_fuzz(ctx, tls, D, S, rng.make("c05-tls-cert"), int(idx.group(1)) + 1)
+    elif case.startswith("client "):
+        client_cases(ctx, tls, D, S)
+    else:
+        connection_level(ctx, tls)
+        return [w["what"] for w in ctx.witnesses]
+    return [w["what"] for w in ctx.witnesses if w["replay"].get("case") == case]
